@@ -42,6 +42,7 @@ def run(ck):
     ck.run_rule(x5_x6_control_and_sink)
     ck.run_rule(x7_iteration_loop)
     ck.run_rule(x8_line_walk_bounded)
+    ck.run_rule(x9_every_iteration_polls)
     from .c17 import d1_d2_d3
     ck.run_rule(d1_d2_d3)
 
@@ -225,17 +226,25 @@ def x3_poll_placement(ck):
     ck.req(len(polls) == 1 and tb.operand(polls[0][1]["args"][0]) == ("param", tok), "X3.poll", "analyze_recursive", b.where(), "expected one poll of the token parameter, found %d" % len(polls))
     # the interrupt return
     errs = []
+    residual_return = any(callee_name(t).endswith("::from_residual") and t["dest"] == {"l": 0, "p": []} for bb, t in live_calls(b))
     for bb, blk in enumerate(b.blocks):
+        if blk.get("threaded_from") is not None:
+            continue
         for s in blk["stmts"]:
-            if s["k"] == "assign" and s["place"] == {"l": 0, "p": []} and "agg" in s["rv"] and s["rv"]["agg"].get("variant") == "Err":
-                errs.append((bb, s, guards_of(prog, b, bb, tb)))
+            if s["k"] == "assign" and not s["place"]["p"] and "agg" in s["rv"] and s["rv"]["agg"].get("variant") == "Err" and \
+                    str(s["rv"]["agg"].get("adt", "")).endswith("Result"):
+                direct = s["place"]["l"] == 0
+                # `checkpoint(..)?`: the Err is built (in a spliced helper) into a local and returned through `?`
+                via_try = (not direct) and residual_return and "SearchInterrupt" in b.local_ty(s["place"]["l"])
+                if direct or via_try:
+                    errs.append((bb, s, guards_of(prog, b, bb, tb)))
     ck.req(len(errs) == 1, "X3.interrupt_return", "analyze_recursive", b.where(), "expected one Err(SearchInterrupt) return, found %d" % len(errs))
     K = None
     for bb, s, g in errs:
         polled = any(is_call(c, TOKEN + "::is_cancelled") and tk is True for c, tk in g)
         ck.req(polled, "X3.on_cancel", "analyze_recursive", b.where(s["line"]), "the interrupt is not returned on token.is_cancelled()")
         for c, tk in g:
-            if c[0] == "bin" and c[1] == "Eq" and tk is True:
+            if c[0] == "bin" and ((c[1] == "Eq" and tk is True) or (c[1] == "Ne" and tk is False)):
                 for x in (c[2], c[3]):
                     if x[0] == "bin" and x[1] == "Rem":
                         K = const_value(x[3])
@@ -255,7 +264,7 @@ def x3_poll_placement(ck):
         t = blk["term"]
         if t["k"] == "switch":
             c = tb.operand(t["discr"])
-            if c[0] == "bin" and c[1] == "Eq" and any(x[0] == "bin" and x[1] == "Rem" for x in (c[2], c[3])):
+            if c[0] == "bin" and c[1] in ("Eq", "Ne") and any(x[0] == "bin" and x[1] == "Rem" for x in (c[2], c[3])):
                 test_bb = bb
     stages = [bb for bb, t in live_calls(b) if callee_name(t) in (S + "StateHistory::lookup", S + "TranspositionTableAccess::find", REC, QS,
                                                                   "weechess_core::movegen::MoveGenerator::compute_psuedo_legal_moves_into")]
@@ -277,7 +286,22 @@ def x4_one_flag(ck):
         tokens = [x for x in (a, b_) if x[0] == "agg" and x[1].endswith("CancellationToken::CancellationToken")]
         clones = [x for x in (a, b_) if is_call(x, "Clone>::clone")]
         good = len(tokens) == 1 and len(clones) == 1 and clones[0][2][0] == tokens[0] and any(is_call(x, "Arc::<T>::new") for x in walk(tokens[0])) \
-            and any(x[0] == "call" and "Atomic" in x[1] and x[1].endswith("::new") and const_value(x[2][0]) is False for x in walk(tokens[0]))
+            and any(x[0] == "call" and "Atomic" in x[1] and x[1].endswith("::new") and const_value(x[2][0]) in (False, 0) and const_value(x[2][0]) is not None for x in walk(tokens[0]))
+    if not good and rt is not None and rt[0] == "agg" and rt[1] == "tuple" and len(rt[2]) == 2:
+        # both halves built around clones of one Arc<Atomic*>: (Token{arc}, Token{Arc::clone(&arc)}) in either order
+        a, b_ = rt[2]
+        if all(x[0] == "agg" and x[1].endswith("CancellationToken::CancellationToken") and len(x[2]) == 1 for x in (a, b_)):
+            fa, fb = a[2][0], b_[2][0]
+            strip = lambda x: x[2][0] if (is_call(x, "Clone>::clone") or is_call(x, "Arc::<T>::clone") or is_call(x, "clone")) and x[2] else x
+            base_a, base_b = strip(fa), strip(fb)
+            while base_a[0] == "call" and base_a[1].split("::")[-1] in ("deref", "borrow", "as_ref") and base_a[2]:
+                base_a = base_a[2][0]
+            while base_b[0] == "call" and base_b[1].split("::")[-1] in ("deref", "borrow", "as_ref") and base_b[2]:
+                base_b = base_b[2][0]
+            same = base_a == base_b or base_a == fb or base_b == fa or (base_b[0] == "field" and base_b[1] == a) or (base_a[0] == "field" and base_a[1] == b_)
+            arc = [x for x in walk(base_a) if is_call(x, "Arc::<T>::new")] or [x for x in walk(base_b) if is_call(x, "Arc::<T>::new")]
+            init = [x for x in walk(arc[0]) if x[0] == "call" and "Atomic" in x[1] and x[1].endswith("::new")] if arc else []
+            good = same and bool(init) and const_value(init[0][2][0]) in (False, 0) and const_value(init[0][2][0]) is not None
     ck.req(good, "X4.shared_flag", "CancellationToken::new", new.where(), "the two token halves are not clones of one Arc<AtomicBool> initialised to false: %s" % (show(rt)[:200] if rt else "?"))
     adt = ck.adt(TOKEN, "X4")
     f = adt["variants"][0]["fields"]
@@ -287,12 +311,19 @@ def x4_one_flag(ck):
     c = ck.body(TOKEN + "::cancel", "X4")
     ctb = TermBuilder(prog, c)
     st = [t for bb, t in live_calls(c) if callee_name(t).endswith("::store")]
-    good = len(st) == 1 and const_value(ctb.operand(st[0]["args"][1])) is True and any(x == ("field", ("param", 1), "cancelled") for x in walk(ctb.operand(st[0]["args"][0])))
-    ck.req(good, "X4.cancel", "CancellationToken::cancel", c.where(), "cancel does not store true into self.cancelled")
+    fname = f[0]["name"] if len(f) == 1 else "cancelled"
+    stored = const_value(ctb.operand(st[0]["args"][1])) if len(st) == 1 else None
+    good = len(st) == 1 and stored not in (None, False, 0) and any(x == ("field", ("param", 1), fname) for x in walk(ctb.operand(st[0]["args"][0])))
+    ck.req(good, "X4.cancel", "CancellationToken::cancel", c.where(), "cancel does not store the `cancelled` value (true / non-zero constant) into the token's flag")
     i = ck.body(TOKEN + "::is_cancelled", "X4")
     rt = return_term(prog, i)
-    good = rt is not None and is_call(rt, "::load") and any(x == ("field", ("param", 1), "cancelled") for x in walk(rt[2][0]))
-    ck.req(good, "X4.is_cancelled", "CancellationToken::is_cancelled", i.where(), "is_cancelled does not load self.cancelled: %s" % (show(rt) if rt else "?"))
+
+    def loads_flag(x):
+        return is_call(x, "::load") and any(y == ("field", ("param", 1), fname) for y in walk(x[2][0]))
+    good = rt is not None and (loads_flag(rt) or
+                               (rt[0] == "bin" and rt[1] == "Eq" and any(loads_flag(x) for x in (rt[2], rt[3])) and stored in (const_value(rt[2]), const_value(rt[3]))) or
+                               (rt[0] == "bin" and rt[1] == "Ne" and any(loads_flag(x) for x in (rt[2], rt[3])) and 0 in (const_value(rt[2]), const_value(rt[3]))))
+    ck.req(good, "X4.is_cancelled", "CancellationToken::is_cancelled", i.where(), "is_cancelled is not `the flag holds the value cancel() stores`: %s" % (show(rt) if rt else "?"))
     # wiring in analyze: the two halves of ONE new() call go to cancel() and to the search
     ctl = None
     for cn in prog.closures_of(ANALYZE):
@@ -555,3 +586,64 @@ def x8_line_walk_bounded(ck):
         ck.req(bounded, "X8.walk_bounded", "next#%d" % (i + 1), nx.where(),
                "a yielding path of the principal-line iterator is not under `counter within limit`: stored entries that form a cycle are followed forever, "
                "the search thread never finishes its `collect()` and never looks at the stop flag again")
+
+
+def x9_every_iteration_polls(ck):
+    """The workers poll the stop flag only when their node counter hits a multiple of the poll period, and that counter starts at zero in
+    every iteration.  A position whose iterations stay below the period (a blocked position: a few hundred nodes once the table is warm)
+    is never polled, and without a depth limit the deepening loop has usize::MAX iterations: Stop is ignored for good.  So the loop itself
+    must look at the flag: every way round the deepening loop passes a call of `is_cancelled` on the search's token that is not under a
+    counter test, either in analyze_iterative or, unconditionally before the root call, in the per-worker closure."""
+    prog = ck.prog
+    it = ck.body(ITER, "X9")
+    tb = TermBuilder(prog, it)
+    heads = [bb for bb, t in live_calls(it) if is_iter_next(callee_name(t)) and "Range" in callee_name(t)]
+    if len(heads) != 1:
+        ck.fail("X9.iteration_polls", "analyze_iterative", it.where(), "expected one deepening loop, found %d" % len(heads))
+        return
+    head = heads[0]
+    names = {it.local_name(i): i for i in range(1, it.arg_count + 1)}
+    tokp = [i for i in range(1, it.arg_count + 1) if it.local_ty(i).endswith("CancellationToken")]
+    polls = []
+    for bb, t in live_calls(it, names=(TOKEN + "::is_cancelled",)):
+        a = tb.operand(t["args"][0])
+        if tokp and any(x == ("param", tokp[0]) for x in walk(a)):
+            g = guards_of(prog, it, bb, tb)
+            if not any(any(y[0] == "bin" and y[1] == "Rem" for y in walk(c)) for c, tk in g):
+                polls.append(bb)
+    ok = False
+    if polls:
+        # every cycle through the head passes one of the polls; the first iteration may be exempt (`depth > 0 && token.is_cancelled()`:
+        # C07's I10 wants the first iteration to run whatever is pending)
+        from .c07 import past_first_iteration
+        succ = it.successors()
+        exempt = []
+        for bb, blk in enumerate(it.blocks):
+            t = blk["term"]
+            if t["k"] != "switch" or blk.get("cleanup"):
+                continue
+            c = tb.operand(t["discr"])
+            for v, tgt in [(x[0], x[1]) for x in t["cases"]] + [("else", t["otherwise"])]:
+                truth = (v != 0) if v != "else" else (0 in [x[0] for x in t["cases"]])
+                if past_first_iteration(c, not truth) and c[0] == "bin":
+                    pass
+                if c[0] == "bin" and past_first_iteration(c, not truth):
+                    exempt.append((bb, tgt))      # the edge taken when it IS the first iteration
+        ok = cfg.must_pass(it, [s_ for s_ in succ[head] if head in cfg.reachable(it, [s_])], [head], polls, through_edges=exempt)
+    if not ok:
+        # or: the worker closure polls unconditionally before the root call of analyze_recursive
+        for cn in prog.closures_of(ITER):
+            c = prog.body(cn)
+            recs = [bb for bb, t in live_calls(c, names=(REC,))]
+            if not recs:
+                continue
+            ctb = TermBuilder(prog, c)
+            dom = cfg.dominators(c)
+            for bb, t in live_calls(c, names=(TOKEN + "::is_cancelled",)):
+                g = guards_of(prog, c, bb, ctb)
+                if all(bb in dom.get(r, ()) for r in recs) and not any(any(y[0] == "bin" and y[1] == "Rem" for y in walk(cnd)) for cnd, tk in g):
+                    ok = True
+    ck.req(ok, "X9.iteration_polls", "analyze_iterative", it.where(),
+           "an iteration of the deepening loop can complete without looking at the stop flag (the workers poll only every 10000th node of a counter "
+           "that restarts in each iteration): on a position whose iterations stay small, e.g. 'k7/8/p1p1p1p1/P1P1P1P1/8/8/8/K7 w - - 0 1', a search "
+           "without depth limit never obeys Stop", "every cycle of the loop passes an unconditional poll")
